@@ -674,11 +674,13 @@ class TcpServerHandler:
         self.connection_handler = None
         self.task = None
         self.server = None
+        self.ioloop = None
         self.connections = []
 
     def create_server(self, ioloop, klongloop, klong, bind, port, shutdown_event=None):
         if self.task is not None:
             return 0
+        self.ioloop = ioloop
         self.connection_handler = TcpServerConnectionHandler(ioloop, klongloop, klong, shutdown_event=shutdown_event)
         self.task = ioloop.call_soon_threadsafe(asyncio.create_task, self.run_server(bind, port))
         return 1
@@ -686,13 +688,21 @@ class TcpServerHandler:
     def shutdown_server(self):
         if self.task is None:
             return 0
-        for writer in self.connections:
-            if not writer.is_closing():
-                writer.close()
+        # The transports and the listening socket belong to the io loop, and .srv(0) runs on the klong loop:
+        # closing them from here is not thread-safe and does not wake an io loop that sleeps in select(), so the
+        # clients would see neither an answer nor a close.  Hand the closing over to the io loop.
+        connections = list(self.connections)
         self.connections.clear()
-        if self.server:
-            self.server.close()
+        server = self.server
         self.server = None
+
+        def close_on_ioloop():
+            for writer in connections:
+                if not writer.is_closing():
+                    writer.close()
+            if server:
+                server.close()
+        self.ioloop.call_soon_threadsafe(close_on_ioloop)
         self.task.cancel()
         self.task = None
         self.connection_handler = None
